@@ -46,9 +46,11 @@ def model():
 
 
 class Tr:
-    def __init__(self):
+    def __init__(self, text=""):
         self.names = list(CONTRACT_NAMES)
         self.arities = set()
+        # which parsers yield a Factor: the known ones plus every function of the file declared `-> ParseResult<Factor>`
+        self.factor_kind = set(FACTOR_KIND) | set(re.findall(r"\bfn\s+(\w+)\s*\(\s*input\s*:\s*ParseString\s*\)\s*->\s*ParseResult<\s*Factor\s*>", text))
 
     def arity_fns(self):
         """model functions per arity, so that the sequence a combinator is applied to is written `seq![a1, .., an]` on both sides"""
@@ -145,7 +147,7 @@ class Tr:
             n = m.group(1)
             if re.match(r"(many0_pair|alt_of)_\d+$", n) or n in ("opt_of", "range_of", "alt_best", "run_f", "run_t", "Some"):
                 return m.group(0)
-            return "%s(%s, input)?" % ("run_f" if n in FACTOR_KIND else "run_t", self.atom(n))
+            return "%s(%s, input)?" % ("run_f" if n in self.factor_kind else "run_t", self.atom(n))
         b = re.sub(r"\b(\w+)\(\s*input\s*\)\s*\?", g5, b)
         # G6
         b = re.sub(r"\bOk\(\(", "Some((", b)
@@ -194,7 +196,7 @@ def units(plan):
     out = []
 
     def mk(uname, builders):
-        tr = Tr()
+        tr = Tr(text)
         items, fns = [], {}
         for fn, on, build, what in builders:
             plan.ob(on, "verus", "proved", functions=["src/syntax/src/expressions.rs: " + fn], what=what)
